@@ -79,6 +79,8 @@ impl Opts {
         let mut a = Vec::new();
         if self.set {
             a.push("--set=z=0".to_string());
+            // the macro form next to the variable form (an unused macro changes nothing)
+            a.push("--set=@zm=(+ . 1)".to_string());
         }
         if self.split {
             a.push("--split-by=.l".to_string());
